@@ -25,7 +25,7 @@ def _task(payload):
     other = {}
     seen = set()
     for t, m, h in r.violations:
-        if t in tags:
+        if t in tags or t == "HANG":
             k = (t, m[:50])
             if k in seen or len(viols) >= 8:
                 continue
@@ -35,7 +35,7 @@ def _task(payload):
             other[t] = other.get(t, 0) + 1
     return {"name": name, "quotient_pairs": r.quotient_pairs, "quotient_mismatch": [repr(m)[:300] for m in r.quotient_mismatch[:2]], "opts": opts, "pop_orders": getattr(r, "pop_orders", 0), "spec": spec, "states": r.states, "transitions": r.transitions, "runs": r.runs,
             "capped": r.capped, "depth": r.max_depth, "viols": viols, "other": other, "kinds": r.kinds,
-            "samples": r.samples[:1], "secs": round(dt_, 2), "nviol": sum(1 for t, _, _ in r.violations if t in tags)}
+            "samples": r.samples[:1], "secs": round(dt_, 2), "nviol": sum(1 for t, _, _ in r.violations if t in tags or t == "HANG")}
 
 
 def run(prop, tier, *, tags=None, norm=False, opts=None, specs=None, extra=None):
@@ -135,4 +135,4 @@ def replay(prop, rep, tags=None):
                              order=rep.get("order", "topo"))
     for t, m in msgs:
         print(f"ORACLE[{t}]: {m}")
-    return [m for t, m in msgs if t in tags]
+    return [m for t, m in msgs if t in tags or t == "HANG"]
